@@ -74,6 +74,8 @@ func dataMsg(seq uint32) *entities.Message {
 		entities.NewFloat64InfoElement(ie4, 1.25e-07),
 		entities.NewBoolInfoElement(ie5, true),
 		entities.NewIPAddressInfoElement(ie6, []byte{10, 1, 2, 3}),
+		// the same element a second time with another value (a template may repeat an element)
+		entities.NewUnsigned64InfoElement(ie2, 987654321),
 	}, 256)
 	m := entities.NewMessage(true)
 	m.SetVersion(10)
@@ -118,7 +120,7 @@ func Check_Arrival() {
 		e := flowRecords[kept+a]
 		sx.Assert(contains(e, "sourceTransportPort") && contains(e, strconv.Itoa(1000+a)), "new-entry-not-last-in-arrival-order")
 		// every field of the record appears by element name and value (concrete values only: rendering is the host fmt)
-		for _, nv := range [][2]string{{"octetDeltaCount", "123456789"}, {"sourcePodName", "pod-x"}, {"samplingProbability", "1.25e-07"}, {"dataRecordsReliability", "true"}, {"sourceIPv4Address", "10.1.2.3"}} {
+		for _, nv := range [][2]string{{"octetDeltaCount", "123456789"}, {"octetDeltaCount", "987654321"}, {"sourcePodName", "pod-x"}, {"samplingProbability", "1.25e-07"}, {"dataRecordsReliability", "true"}, {"sourceIPv4Address", "10.1.2.3"}} {
 			sx.Assert(contains(e, nv[0]) && contains(e, nv[1]), "field-missing-from-rendered-entry")
 		}
 	}
@@ -214,6 +216,57 @@ func Check_QuerySymbolic() {
 		sx.Assert(resp.FlowRecords[i] == token(L-n+i), "json-entries-are-not-the-last-n-in-order")
 	}
 	sx.Reach("answered")
+}
+
+// Check_QueryAfterChange: a JSON (or text) query, then the store changes
+// without changing its length class - an arrival at the cap, or a reset
+// followed by as many arrivals as there were entries - then the same query
+// again: the second answer is the store as it is now.
+func Check_QueryAfterChange() {
+	L := []int{1, 2, maxFlowRecords}[sx.Choose("storeLen", 3)]
+	fill(L)
+	q := []string{"format=json", "count=1&format=json", "format=text"}[sx.Choose("query", 3)]
+	w1 := newWriter()
+	flowRecordHandler(w1, request("GET", q))
+	sx.Assert(w1.code == 0 || w1.code == http.StatusOK, "valid-query-refused")
+	if sx.Choose("change", 2) == 0 && L == maxFlowRecords {
+		addIPFIXMessage(dataMsg(2000))
+		sx.Reach("arrival-at-cap")
+	} else {
+		w := newWriter()
+		resetRecordHandler(w, request("POST", ""))
+		sx.Assert(len(flowRecords) == 0, "reset-does-not-empty-the-store")
+		n := L
+		if n > 2 {
+			n = 2
+		}
+		for a := 0; a < n; a++ {
+			addIPFIXMessage(dataMsg(uint32(2000 + a)))
+		}
+		sx.Reach("reset-and-refill")
+	}
+	now := append([]string{}, flowRecords...)
+	w2 := newWriter()
+	flowRecordHandler(w2, request("GET", q))
+	count := len(now)
+	if q == "count=1&format=json" && count > 1 {
+		count = 1
+	}
+	if q == "format=text" {
+		sx.Assert(len(w2.writes) == 2*count, "text-entry-count")
+		for i := 0; i < count; i++ {
+			sx.Assert(string(w2.writes[2*i]) == now[len(now)-count+i], "second-answer-is-not-the-current-store")
+		}
+		sx.Reach("second-text")
+		return
+	}
+	sx.Assert(sx.StubCount("encoding/json.Marshal") == 2, "second-json-answer-not-built-from-the-current-store")
+	resp := sx.StubArg("encoding/json.Marshal", 1, 0).(*jsonResponse)
+	sx.Assert(len(resp.FlowRecords) == count, "json-entry-count")
+	for i := 0; i < count; i++ {
+		sx.Assert(resp.FlowRecords[i] == now[len(now)-count+i], "second-answer-is-not-the-current-store")
+	}
+	sx.Reach("second-json")
 }
 
 // Check_Methods: other methods are refused; reset empties the store.
